@@ -1,14 +1,326 @@
 import Astria.Relayer.Model
 import Driver.Common
-/- Area `batch` (stub): replays the trace through the model. -/
+/- Area `batch` (property C12): replays the relayer batching trace through `Astria.Relayer`
+   (correspondence) and evaluates the C12 spec on what the implementation reported (monitors).
+
+   The compressed size of a candidate payload is not modelled: the trace carries it
+   (`cand=` / `hcand=`, computed by the harness with the real brotli on the reference entry
+   lists) and the model's `csize` oracle is instantiated with it for that step. -/
 namespace Driver.BatchArea
+open Astria.Relayer
+
+def LIMIT : Nat := 1000000
+
+/-- `namespace_v0_from_rollup_id`: the first 10 bytes of the id (20 hex characters). -/
+def nsOf (r : String) : String := (r.take 20).toString
+
+def insertStr (x : String) : List String → List String
+  | [] => [x]
+  | y :: ys => if x < y then x :: y :: ys else y :: insertStr x ys
+
+def sortStr (l : List String) : List String := l.foldl (fun acc x => insertStr x acc) []
+
+def joinOr (sep : String) (l : List String) : String := if l.isEmpty then "-" else sep.intercalate l
+
+/-! ### text of model values (must equal the harness' text) -/
+
+def blockText (b : Block) : String :=
+  let rs := joinOr "+" (b.rollups.map (fun e => s!"{e.rollup}.{e.digest}"))
+  s!"{b.md.height}:{b.md.chainNs}:{b.md.digest}:{rs}"
+
+def blobText (b : Blob) : String :=
+  match b.body with
+  | .metaList es => s!"{b.ns}:M:{"+".intercalate (es.map (fun m => s!"{m.height}.{m.digest}"))}"
+  | .rollupList es => s!"{b.ns}:R:{"+".intercalate (es.map (fun e => s!"{e.rollup}.{e.digest}"))}"
+
+def blobsText (bs : List Blob) : String :=
+  match bs with
+  | [] => ""
+  | b :: rest => ";".intercalate (blobText b :: sortStr (rest.map blobText))
+
+def addResText : AddRes → String
+  | .ok => "ok"
+  | .full _ => "full"
+  | .oversized h sz => s!"err:oversized:{h}:{sz}"
+  | .intoPayload _ => "err:into-payload"
+
+def pendText (s : Sub) : String :=
+  match s.pending with
+  | some b => toString b.height
+  | none => "-"
+
+def subText (sub : Submission) : String :=
+  let i := sub.input
+  let hs := joinOr "," (i.heights.map toString)
+  let incl := joinOr "," (sortStr (i.included.map (fun p => s!"{p.1}>{p.2}")))
+  let excl := joinOr "," (sortStr i.excluded)
+  s!"nb={i.metadata.length} nblobs={sub.payload.blobs.length} gh={sub.greatest} hs={hs} csz={sub.payload.size} seqns={i.seqNs.getD "-"} incl={incl} excl={excl} blobs={blobsText sub.payload.blobs}"
+
+/-! ### parsing what the implementation reported -/
+
+def parseEntries (s : String) : List RData :=
+  if s = "-" ∨ s = "" then [] else
+  (s.splitOn "+").filterMap (fun e => match e.splitOn "." with
+    | [r, d] => some ⟨r, d⟩
+    | _ => none)
+
+/-- `<height>:<chain ns>:<metadata digest>:<rollup>.<digest>+…` -/
+def parseBlock (s : String) : Option Block :=
+  match s.splitOn ":" with
+  | [h, c, d, rs] => some ⟨⟨h.toNat!, c, d⟩, parseEntries rs⟩
+  | _ => none
+
+def field (ws : List String) (key : String) : Option String :=
+  match ws.find? (fun w => w.startsWith (key ++ "=")) with
+  | some w => some (w.drop (key.length + 1)).toString
+  | none => none
+
+structure IBlob where
+  ns : String
+  kind : String
+  metas : List (Nat × String) := []
+  datas : List RData := []
+
+def parseBlob (s : String) : IBlob :=
+  match s.splitOn ":" with
+  | [ns, "M", es] =>
+    { ns := ns, kind := "M",
+      metas := if es = "" then [] else (es.splitOn "+").filterMap (fun e => match e.splitOn "." with
+        | [h, d] => some (h.toNat!, d)
+        | _ => none) }
+  | [ns, "R", es] => { ns := ns, kind := "R", datas := parseEntries es }
+  | ns :: _ => { ns := ns, kind := "X" }
+  | [] => { ns := "", kind := "X" }
+
+def parseNatList (s : String) : List Nat :=
+  if s = "-" ∨ s = "" then [] else (s.splitOn ",").map String.toNat!
+
+def isStrictlyIncreasing : List Nat → Bool
+  | [] => true
+  | [_] => true
+  | a :: b :: rest => decide (a < b) && isStrictlyIncreasing (b :: rest)
+
+/-- session state of the driver: the model and the ghost history of the IMPLEMENTATION -/
+structure St where
+  active : Bool := false
+  filter : List String := []
+  sub : Sub := {}
+  -- implementation-side ghost state (built only from what the implementation reported)
+  gNext : List Block := []        -- blocks the implementation accepted into the current batch
+  gPend : Option Block := none    -- block the implementation reported as pending
+  gFailed : Bool := false
+  gAccHeights : List Nat := []    -- heights of all accepted blocks, in order
+  gEmitHeights : List Nat := []   -- heights of all emitted metadata entries, in order
+
+def cfgOf (st : St) (oracle : Option Nat) : Cfg :=
+  { filter := st.filter, ns := nsOf, csize := fun _ => oracle, max := LIMIT }
+
+def cmpPart (impl : String) : String × String :=
+  match impl.splitOn " # " with
+  | [a, b] => (a, b)
+  | _ => (impl, "")
+
+/-- spec of one submission, evaluated on the implementation's own report -/
+def checkSubmission (r : Driver.Report) (n : Nat) (line : String) (st : St)
+    (ws extra : List String) : Driver.Report := Id.run do
+  let mut r := r
+  let blobs := ((field ws "blobs").getD "").splitOn ";" |>.map parseBlob
+  let nb := ((field ws "nb").getD "0").toNat!
+  let csz := ((field ws "csz").getD "0").toNat!
+  let gh := ((field ws "gh").getD "0").toNat!
+  let hs := parseNatList ((field ws "hs").getD "-")
+  let seqns := (field ws "seqns").getD "-"
+  let metas := (blobs.filter (·.kind = "M")).flatMap (·.metas)
+  let want := st.gNext.map (fun b => (b.md.height, b.md.digest))
+  -- exactly once (metadata = one entry per accepted block, in order, whatever the filter)
+  if metas ≠ want ∨ nb ≠ st.gNext.length then
+    r := r.addMonitor "exactly_once" n line s!"submission holds {metas.map (·.1)} (nb={nb}) but the batch was handed {want.map (·.1)}"
+  match blobs with
+  | first :: _ =>
+    if first.kind ≠ "M" ∨ first.ns ≠ seqns then
+      r := r.addMonitor "exactly_once" n line "first blob is not the metadata list under the sequencer namespace"
+  | [] => r := r.addMonitor "exactly_once" n line "submission without blobs"
+  -- filter: per namespace exactly the included rollups' entries, in order; nothing else
+  let nss := (blobs.filter (·.kind = "R")).map (·.ns)
+  let allNs := (st.gNext.flatMap (fun b => (b.rollups.filter (fun e => shouldInclude st.filter e.rollup)).map (fun e => nsOf e.rollup))).eraseDups
+  for ns in (nss ++ allNs).eraseDups do
+    let got := (blobs.filter (fun b => b.kind = "R" ∧ b.ns = ns)).flatMap (·.datas)
+    let exp := st.gNext.flatMap (fun b => b.rollups.filter (fun e => shouldInclude st.filter e.rollup && decide (nsOf e.rollup = ns)))
+    if got ≠ exp then
+      r := r.addMonitor "filter_only_drops_data" n line s!"namespace {ns}: {got.length} entries in the blobs, {exp.length} expected from the filter"
+  if nss.length ≠ nss.eraseDups.length then
+    r := r.addMonitor "filter_only_drops_data" n line "two rollup blobs under one namespace"
+  -- heights
+  let mh := metas.map (·.1)
+  let mx := mh.foldl Nat.max 0
+  if gh ≠ mx ∨ ¬ isStrictlyIncreasing hs ∨ ¬ (mh.all (hs.contains ·)) ∨ ¬ (hs.all (mh.contains ·)) then
+    r := r.addMonitor "height_order" n line s!"greatest={gh} heights={hs} but metadata heights are {mh}"
+  if isStrictlyIncreasing st.gAccHeights ∧ ¬ isStrictlyIncreasing (st.gEmitHeights ++ mh) then
+    r := r.addMonitor "height_order" n line s!"accepted heights increase but emitted ones do not: {st.gEmitHeights ++ mh}"
+  -- size bound on the REAL compressed size
+  let real := ((field extra "real").getD "0").toNat!
+  let usz := ((field extra "usz").getD "0").toNat!
+  let ureal := ((field extra "ureal").getD "1").toNat!
+  if csz > LIMIT ∨ real > LIMIT then
+    r := r.addMonitor "size_bound" n line s!"compressed payload {csz} (sum of blob sizes {real}) exceeds {LIMIT}"
+  if csz ≠ real ∨ usz ≠ ureal then
+    r := r.addMonitor "size_bound" n line s!"accounted sizes {csz}/{usz} differ from the blobs' {real}/{ureal}"
+  -- decode round trip, per block
+  let dec := (field extra "dec").getD "-"
+  let decs := if dec = "-" then [] else dec.splitOn ","
+  let expDec := st.gNext.map (fun b =>
+    let k := (b.rollups.filter (fun e => shouldInclude st.filter e.rollup)).length
+    s!"{b.md.height}:1:{k}/{k}")
+  if decs ≠ expDec ∨ (field extra "malformed") ≠ some "0" ∨ (field extra "orph") ≠ some "0" then
+    r := r.addMonitor "decode_roundtrip" n line s!"decoded {dec} malformed={(field extra "malformed").getD "?"} orphans={(field extra "orph").getD "?"}; expected {",".intercalate expDec}"
+  -- statistics
+  r := r.bump s!"sub_blocks_{if nb ≥ 4 then "4+" else toString nb}"
+  r := r.bump (if csz * 10 ≥ LIMIT * 9 then "sub_size_ge_90pct" else if csz * 2 ≥ LIMIT then "sub_size_ge_50pct" else "sub_size_small")
+  if csz = LIMIT then r := r.bump "sub_size_exactly_limit"
+  if allNs.length < (st.gNext.flatMap (fun b => (b.rollups.filter (fun e => shouldInclude st.filter e.rollup)).map (·.rollup))).eraseDups.length then
+    r := r.bump "sub_shared_namespace"
+  return r
 
 def run (lines : Array String) : Driver.Report := Id.run do
   let mut r : Driver.Report := {}
+  let mut st : St := {}
   let mut n := 0
   for line in lines do
     n := n + 1
-    r := r.addDisagree n line "bad-area"
+    let (op, impl) := Driver.splitLine line
+    let (icmp, iextra) := cmpPart impl
+    let iws := Driver.words icmp
+    let ews := Driver.words iextra
+    let ires := iws.headD ""
+    match Driver.words op with
+    | "batch" :: "reset" :: args =>
+      let f := (field args "filter").getD "all"
+      let filter := if f = "all" then [] else f.splitOn ","
+      let last := ((field args "last").getD "0").toNat!
+      st := { active := true, filter := filter, sub := { last := last } }
+      r := r.check n line impl "ok"
+      r := r.bump "sessions"
+      r := r.bump (if filter.isEmpty then "filter_all" else s!"filter_{filter.length}_ids")
+    | "batch" :: "recv" :: _ =>
+      if ¬ st.active then r := r.addDisagree n line "no-session" else
+      match (field iws "blk").bind parseBlock with
+      | none => r := r.addDisagree n line "cannot-parse-block"
+      | some b =>
+        let candStr := (field iws "cand").getD "-"
+        let cfg := cfgOf st candStr.toNat?
+        let (s', out) := st.sub.step cfg (.recv b)
+        let mres := match out with
+          | .stopped => "stopped"
+          | .blocked => "blocked"
+          | .skipped => "skipped"
+          | .add res => addResText res
+          | _ => "?"
+        r := r.check n line icmp s!"{mres} blk={blockText b} cand={candStr} pend={pendText s'}"
+        r := r.bump s!"recv_{(ires.splitOn ":").take 2 |> ":".intercalate}"
+        -- monitors / ghost state from the implementation's answer
+        let mut g := st
+        if ires = "ok" then
+          g := { g with gNext := g.gNext ++ [b], gAccHeights := g.gAccHeights ++ [b.height] }
+          if b.rollups.isEmpty then r := r.bump "block_without_rollups"
+        else if ires = "full" then
+          g := { g with gPend := some b, gAccHeights := g.gAccHeights ++ [b.height] }
+          if (field ews "same") ≠ some "true" ∨ (field iws "pend") ≠ some (toString b.height) then
+            r := r.addMonitor "exactly_once" n line "the block kept as pending is not the block that was handed in"
+          if g.gNext.isEmpty then
+            r := r.addMonitor "exactly_once" n line "`Full` from an empty batch: the block could never be submitted"
+          match candStr.toNat? with
+          | some c => if c ≤ LIMIT then
+              r := r.addMonitor "refusal_justified" n line s!"block refused as not fitting although the candidate payload has {c} ≤ {LIMIT} bytes"
+          | none => pure ()
+        else if ires.startsWith "err:oversized" then
+          g := { g with gFailed := true }
+          match ires.splitOn ":" with
+          | [_, _, h, sz] =>
+            if sz.toNat! ≤ LIMIT ∨ h.toNat! ≠ b.height then
+              r := r.addMonitor "refusal_justified" n line s!"block {b.height} refused as oversized with size {sz} (limit {LIMIT})"
+          | _ => pure ()
+          if ¬ g.gNext.isEmpty then
+            r := r.addMonitor "refusal_justified" n line "oversized error although the batch was not empty"
+        else if ires.startsWith "err:" then
+          g := { g with gFailed := true }
+        else if ires = "blocked" then
+          if g.gPend.isNone then
+            r := r.addMonitor "exactly_once" n line "no capacity although no block is pending"
+        else if ires = "skipped" then
+          if b.height > st.sub.last then
+            r := r.addMonitor "exactly_once" n line s!"block {b.height} skipped although only {st.sub.last} was submitted"
+        st := { g with sub := s' }
+    | ["batch", "takedrop"] =>
+      r := r.check n line impl "ok"
+      r := r.bump "takedrop"
+    | ["batch", "take"] =>
+      if ¬ st.active then r := r.addDisagree n line "no-session" else
+      let hcandStr := (field iws "hcand").getD "-"
+      let cfg := cfgOf st hcandStr.toNat?
+      let (s', out) := st.sub.step cfg .take
+      let mtext := match out with
+        | .stopped => "stopped"
+        | .busy => "busy"
+        | .nothing => "none"
+        | .submitted sub ho =>
+          let hoText := match ho, st.sub.pending with
+            | some res, some pb => s!"ho={addResText res} hblk={blockText pb} hcand={hcandStr}"
+            | _, _ => "ho=- hblk=- hcand=-"
+          s!"sub {subText sub} {hoText} pend={pendText s'}"
+        | _ => "?"
+      r := r.check n line icmp mtext
+      r := r.bump s!"take_{ires}"
+      let mut g := st
+      if ires = "sub" then
+        r := checkSubmission r n line st iws ews
+        let mh := (st.gNext.map (·.height))
+        g := { g with gNext := [], gEmitHeights := g.gEmitHeights ++ mh }
+        let ho := (field iws "ho").getD "-"
+        r := r.bump s!"handover_{(ho.splitOn ":").take 2 |> ":".intercalate}"
+        match st.gPend with
+        | some pb =>
+          if ho = "ok" then
+            g := { g with gNext := [pb], gPend := none }
+            if (field iws "hblk") ≠ some (blockText pb) ∨ (field ews "same") ≠ some "true" then
+              r := r.addMonitor "exactly_once" n line "the block handed over after the take is not the pending block"
+          else if ho.startsWith "err:oversized" then
+            g := { g with gPend := none, gFailed := true }
+            match ho.splitOn ":" with
+            | [_, _, _, sz] => if sz.toNat! ≤ LIMIT then
+                r := r.addMonitor "refusal_justified" n line s!"pending block refused as oversized with size {sz}"
+            | _ => pure ()
+          else if ho.startsWith "err:" then
+            g := { g with gPend := none, gFailed := true }
+          else
+            r := r.addMonitor "exactly_once" n line s!"pending block {pb.height} was not handed to the emptied batch (ho={ho})"
+        | none =>
+          if ho ≠ "-" then
+            r := r.addMonitor "exactly_once" n line "a hand-over happened although nothing was pending"
+      else if ires = "none" then
+        if ¬ st.gNext.isEmpty ∨ st.gPend.isSome then
+          r := r.addMonitor "exactly_once" n line s!"take yields nothing although {st.gNext.length} block(s) were accepted into the batch"
+      st := { g with sub := s' }
+    | ["batch", "done"] =>
+      if ¬ st.active then r := r.addDisagree n line "no-session" else
+      let (s', out) := st.sub.step (cfgOf st none) .done
+      let mtext := match out with
+        | .stopped => "stopped"
+        | .idle => "idle"
+        | .completed => s!"completed:{s'.last}"
+        | .submitFailed => "submit-failed"
+        | _ => "?"
+      r := r.check n line impl mtext
+      r := r.bump s!"done_{(ires.splitOn ":").headD ""}"
+      st := { st with sub := s' }
+    | ["batch", "end"] =>
+      if ¬ st.active then r := r.addDisagree n line "no-session" else
+      r := r.check n line impl s!"pend={pendText st.sub} cap={decide (st.sub.pending.isNone)} failed={st.sub.failed}"
+      -- after the drain every accepted block must have been emitted (or the loop failed hard)
+      if ¬ st.gFailed ∧ (¬ st.gNext.isEmpty ∨ st.gPend.isSome) then
+        r := r.addMonitor "exactly_once" n line s!"{st.gNext.length} accepted block(s) never emitted after the drain"
+      if st.gFailed then r := r.bump "session_hard_error"
+      if ¬ isStrictlyIncreasing st.gAccHeights then r := r.bump "session_non_monotone_heights"
+    | _ => r := r.addDisagree n line "bad-area"
   return r
 
 end Driver.BatchArea
